@@ -1,3 +1,11 @@
+"""Design-phase scratch script, NOT part of the verification machinery.
+
+It re-runs, against whatever `skfem` is on PYTHONPATH, the failing inputs that
+DESIGN.md section 4 lists for the defects F03-F20, and was used once to confirm
+that the drafted repairs in candidate-fixes.diff remove them.  No registered
+check ever executes it: the checks in MANIFEST.json are static and never
+import skfem.
+"""
 import numpy as np, warnings, scipy.sparse as sp, logging, tempfile, os
 warnings.simplefilter('ignore')
 import skfem; print(skfem.__file__)
